@@ -375,7 +375,7 @@ def _check_offsets():
 
 _check_offsets()
 
-ATOM_FEATURES = ["plain", "alt-lo-hi", "alt-hi-lo", "alt-tie", "rep-lo-hi", "rep-hi-lo", "rep-tie",
+ATOM_FEATURES = ["plain", "alt-lo-hi", "alt-hi-lo", "alt-tie", "alt3-lo-hi-mid", "alt3-mid-lo-hi", "rep-lo-hi", "rep-hi-lo", "rep-tie",
                  "clash300-lower", "clash300-higher", "clash300-tie", "clash490-lower", "miss510", "miss700",
                  "clash-next-residue"]
 NULL_FEATURES = ["occ-absent", "occ-absent-repeated", "occ-absent-clash"]
@@ -433,6 +433,11 @@ def build_model(rng, m, feats, *, chains=1, icn="?", ocn="?", origin=None, allow
         p0 = _add(o, _OFFS[0])
         if feat == "plain":
             lines.append(_line(m, res, names[0], p0, rng.choice([100, 100, 75])))
+        elif feat.startswith("alt3-"):
+            # three alternate locations whose occupancies are not monotone in file order
+            occs = {"alt3-lo-hi-mid": (20, 50, 30), "alt3-mid-lo-hi": (30, 20, 50)}[feat]
+            for q, (oc, al) in enumerate(zip(occs, "ABC")):
+                lines.append(_line(m, res, names[0], _add(p0, (q * _ALT_SHIFT[0], q * _ALT_SHIFT[1], q * _ALT_SHIFT[2])), oc, al))
         elif feat.startswith("alt-"):
             oa, ob = {"alt-lo-hi": (40, 60), "alt-hi-lo": (60, 40), "alt-tie": (50, 50)}[feat]
             second = rng.random() < 0.5      # a second atom with alternates, written block-wise (all A, then all B)
